@@ -1,4 +1,5 @@
 import VncModel.Region.Misc
+import VncModel.Leaf.EquivRegion
 /-!
 # C11 — Region algebra behaves as set algebra on pixels
 
@@ -64,6 +65,17 @@ example : Region.WF [⟨0, 2, [⟨0, 3, ()⟩, ⟨3, 5, ()⟩]⟩, ⟨2, 4, [⟨
     Region.WF [⟨1, 8, [⟨2, 4, ()⟩]⟩] := by
   simp [Region.WF, XList.WF, Sorted, SortedFrom]
 
+/-- the example of `rfbregion.c`'s disabled `main()`: (10,10)-(600,300) minus (40,50)-(350,200) -/
+example : (Region.sub (Region.rect 10 10 600 300) (Region.rect 40 50 350 200)) =
+    ([⟨10, 50, [⟨10, 600, ()⟩]⟩, ⟨50, 200, [⟨10, 40, ()⟩, ⟨350, 600, ()⟩]⟩, ⟨200, 300, [⟨10, 600, ()⟩]⟩],
+     true) := by decide
+
+/-- results are not canonical: `[3,5) ∪ [5,7)` stays two rectangles, the mirror image merges -/
+example : Region.or (Region.rect 3 0 5 1) (Region.rect 5 0 7 1) = [⟨0, 1, [⟨3, 5, ()⟩, ⟨5, 7, ()⟩]⟩] ∧
+    Region.or (Region.rect 5 0 7 1) (Region.rect 3 0 5 1) = [⟨0, 1, [⟨3, 7, ()⟩]⟩] := by decide
+
+example : Region.and (Region.rect 0 0 4 4) (Region.rect 4 0 8 4) = ([], false) := by decide
+
 /-! ## offset, copy, emptiness, creation -/
 
 /-- `sraRgnOffset` translates the pixel set (model: unbounded `Int`; in C the additions must not
@@ -121,6 +133,10 @@ theorem bbox_wf (r : Region) (hwf : r.WF) (hr : InRange r) : r.bbox.WF := by
     rw [he]
     exact ⟨h2, ⟨⟨h1, trivial, trivial⟩, by simp⟩, trivial⟩
 
+/-- non-vacuity: a well-formed, non-empty region inside the guard, and its box -/
+example : Region.bbox [⟨0, 2, [⟨0, 3, ()⟩, ⟨3, 5, ()⟩]⟩, ⟨7, 9, [⟨-4, 1, ()⟩]⟩] = [⟨0, 9, [⟨-4, 5, ()⟩]⟩] := by
+  decide
+
 /-- non-vacuity of the guard -/
 example : InRange [⟨0, 2, [⟨0, 3, ()⟩, ⟨3, 5, ()⟩]⟩, ⟨7, 9, [⟨-2147483647, 2147483647, ()⟩]⟩] := by
   simp [InRange, intMax]
@@ -152,6 +168,9 @@ theorem iter_monotone (r : Region) (h : r.WF) (rx ry : Bool) :
     (r.rects rx ry).Pairwise (fun a b =>
       (a.y1 = b.y1 ∧ a.y2 = b.y2 ∧ (if rx then b.x2 ≤ a.x1 else a.x2 ≤ b.x1)) ∨
       (if ry then b.y2 ≤ a.y1 else a.y2 ≤ b.y1)) := rects_monotone r h rx ry
+
+example : Region.rects [⟨0, 2, [⟨0, 3, ()⟩, ⟨4, 5, ()⟩]⟩, ⟨2, 4, [⟨1, 2, ()⟩]⟩] true false =
+    [⟨4, 0, 5, 2⟩, ⟨0, 0, 3, 2⟩, ⟨1, 2, 2, 4⟩] := by decide
 
 /-! ## the rectangle clippers -/
 
@@ -256,5 +275,42 @@ theorem popRect_some (r : Region) (hwf : r.WF) (flags : Nat) (r' : Region) (rc :
 
 example : (Region.popRect [⟨0, 2, [⟨0, 3, ()⟩, ⟨4, 5, ()⟩]⟩, ⟨2, 4, [⟨1, 2, ()⟩]⟩] 2).2
     = some ⟨4, 0, 5, 2⟩ := by decide
+
+/-! ## T1: the regenerated C leaf functions are the model's functions
+
+`VncModel.Gen.Leaf.*` is translated from /repo's current C source by `tools/c2lean.py` on every run
+(docs/T1.md); these are the proof obligations that stop compiling when `sraClipRect`,
+`sraClipRect2` or the guard of `sraRgnCreateRect` change.  Together with `clipRect_is_intersection`,
+`clipRect2_spec`, `createRect_den` they make those three statements theorems about the C text. -/
+namespace T1
+
+/-- `sraClipRect` as compiled now = `Rgn.clipRect` -/
+theorem code_clipRect_eq_model : VncModel.Gen.Leaf.sraClipRect = clipRect :=
+  VncModel.Leaf.sraClipRect_eq
+
+/-- `sraClipRect2` as compiled now = `Rgn.clipRect2` -/
+theorem code_clipRect2_eq_model : VncModel.Gen.Leaf.sraClipRect2 = clipRect2 :=
+  VncModel.Leaf.sraClipRect2_eq
+
+/-- `sraRgnCreateRect` as compiled now: returns the empty region exactly when the model does, and
+otherwise builds the one-rectangle region from the unmodified coordinates = `Region.rect` -/
+theorem code_createRect_eq_model (x1 y1 x2 y2 : Int) :
+    (match VncModel.Gen.Leaf.sraRgnCreateRect_guard x1 y1 x2 y2 with
+     | none => ([] : Region)
+     | some (a, b, c, d) => [⟨b, d, [⟨a, c, ()⟩]⟩]) = Region.rect x1 y1 x2 y2 :=
+  VncModel.Leaf.sraRgnCreateRect_guard_eq x1 y1 x2 y2
+
+/-- hence: the C `sraClipRect` is rectangle intersection (statement about the regenerated code) -/
+theorem code_clipRect_is_intersection (x y w h cx cy cw ch : Int) :
+    let r := VncModel.Gen.Leaf.sraClipRect x y w h cx cy cw ch
+    (∀ px py, (r.1 ≤ px ∧ px < r.1 + r.2.2.1 ∧ r.2.1 ≤ py ∧ py < r.2.1 + r.2.2.2.1) ↔
+      ((x ≤ px ∧ px < x + w ∧ y ≤ py ∧ py < y + h) ∧
+       (cx ≤ px ∧ px < cx + cw ∧ cy ≤ py ∧ py < cy + ch))) ∧
+    (r.2.2.2.2 = true ↔ ∃ px py, (x ≤ px ∧ px < x + w ∧ y ≤ py ∧ py < y + h) ∧
+       (cx ≤ px ∧ px < cx + cw ∧ cy ≤ py ∧ py < cy + ch)) := by
+  rw [code_clipRect_eq_model]
+  exact clipRect_is_intersection x y w h cx cy cw ch
+
+end T1
 
 end VncModel.Props.C11
